@@ -2,6 +2,9 @@
   C04 — summarize and aggregate functions: one row per group, nulls ignored.
 -/
 import Pdt.Model.Spec
+import Pdt.Props.Lemmas.Partition
+import Pdt.Props.Lemmas.Pointwise
+import Pdt.Props.C07
 
 namespace Pdt.C04
 open Pdt Pdt.Spec Pdt.Ops
@@ -109,6 +112,73 @@ theorem filter_after_summarize (db : DB) (i j : NodeId) (c : Ast) (names : List 
     (run db (.filter j (.summarize i c names vals uuids metas) preds)).rows =
       filterRows (run db (.summarize i c names vals uuids metas)).rows preds := by
   simp [run]
+
+/-! ### exactly one group per distinct combination of grouping values -/
+
+/-- the tuple of grouping values of a row -/
+def keyOf (group : List Uid) (r : Row) : List Val := group.map r.get
+
+theorem groupsOf_eq (rows : List Row) (keys : List Uid) :
+    groupsOf rows keys = (partitionGroups (rows.map (keyOf keys))).map (fun g => g.2.map (fun i => rows.getD i [])) := by
+  simp only [groupsOf, partitionIdx_groups, List.map_map]
+  rfl
+
+/-- every input row belongs to exactly one group -/
+theorem groups_cover_rows (rows : List Row) (keys : List Uid) : (groupsOf rows keys).flatten.Perm rows := by
+  have h := partitionIdx_perm (rows.map (keyOf keys))
+  have h2 := h.map (fun i => rows.getD i [])
+  simp only [List.length_map] at h2
+  rw [range_map_getD, List.map_flatten] at h2
+  unfold groupsOf
+  exact h2
+
+/-- the rows of one group share their grouping values -/
+theorem group_rows_share_key (rows : List Row) (keys : List Uid) (unit : Unit') (hu : unit ∈ groupsOf rows keys)
+    (r r' : Row) (hr : r ∈ unit) (hr' : r' ∈ unit) : keyOf keys r = keyOf keys r' := by
+  rw [groupsOf_eq] at hu
+  obtain ⟨g, hg, rfl⟩ := List.mem_map.1 hu
+  have key : ∀ x ∈ g.2.map (fun i => rows.getD i []), keyOf keys x = g.1 := by
+    intro x hx
+    obtain ⟨i, hi, rfl⟩ := List.mem_map.1 hx
+    have hk := (partition_members _ g hg i).1 hi
+    have hlt : i < rows.length := by
+      cases h : (rows.map (keyOf keys))[i]? with
+      | none => simp [h] at hk
+      | some v => simpa using (List.getElem?_eq_some_iff.1 h).1
+    simp only [List.getElem?_map, List.getElem?_eq_getElem hlt, Option.map_some, Option.some.injEq] at hk
+    simpa [List.getD_eq_getElem?_getD, hlt] using hk
+  rw [key r hr, key r' hr']
+
+/-- different groups have different grouping values, null being a value of its own; and a
+    combination has a group exactly when some input row carries it — so `summarize` returns exactly one
+    row per distinct combination present in its input -/
+theorem one_group_per_key (rows : List Row) (keys : List Uid) :
+    ((partitionGroups (rows.map (keyOf keys))).map (·.1)).Nodup ∧
+    (∀ k, k ∈ (partitionGroups (rows.map (keyOf keys))).map (·.1) ↔ ∃ r ∈ rows, keyOf keys r = k) ∧
+    (groupsOf rows keys).length = ((rows.map (keyOf keys)).eraseDups).length := by
+  refine ⟨partition_keys_nodup _, ?_, ?_⟩
+  · intro k
+    rw [partition_key_present]
+    simp [List.mem_map]
+  · rw [groupsOf_eq, List.length_map]
+    have hp : ((partitionGroups (rows.map (keyOf keys))).map (·.1)).Perm (rows.map (keyOf keys)).eraseDups := by
+      rw [List.perm_ext_iff_of_nodup (partition_keys_nodup _) (C07.eraseDups_nodup _)]
+      intro k
+      rw [partition_key_present, List.mem_eraseDups]
+    simpa using hp.length_eq
+
+/-- grouped `summarize`: one output row per group, no group empty -/
+theorem grouped_rows (db : DB) (i : NodeId) (c : Ast) (names : List String) (vals : List Expr) (uuids : List Uid)
+    (metas : List (Dtype × Ftype)) (h : (run db c).group ≠ []) :
+    (run db (.summarize i c names vals uuids metas)).rows.length = (groupsOf (run db c).rows (run db c).group).length ∧
+    ∀ u ∈ groupsOf (run db c).rows (run db c).group, u ≠ [] := by
+  have hne : (run db c).group.isEmpty = false := by cases hg : (run db c).group <;> simp_all
+  refine ⟨by simp [run, hne], ?_⟩
+  intro u hu
+  rw [groupsOf_eq] at hu
+  obtain ⟨g, hg, rfl⟩ := List.mem_map.1 hu
+  have := (pinv_final ((run db c).rows.map (keyOf (run db c).group))).nonempty g hg
+  simpa using this
 
 /-- documented example shapes: null is a grouping value of its own; each key once -/
 example :
